@@ -132,7 +132,7 @@ func runAsync(rt *rapid.T) {
 	for i := 0; i < c.Alpha; i++ {
 		txs[i] = []byte(strings.Repeat(string(rune(letter(i))), c.Lens[i]))
 		a.alpha[string(txs[i])] = i
-		a.tab[i] = genVerdict(rt)
+		a.tab[i] = genVerdict(rt, c)
 	}
 	env, err := startSocketApp(a)
 	if err != nil {
@@ -180,7 +180,7 @@ func runAsync(rt *rapid.T) {
 	for round := 0; round < rounds; round++ {
 		for k := rapid.IntRange(0, 2).Draw(rt, "verdictChanges"); k > 0; k-- {
 			i := rapid.IntRange(0, c.Alpha-1).Draw(rt, "i")
-			nv := genVerdict(rt)
+			nv := genVerdict(rt, c)
 			if inPool(txs[i]) {
 				nv.Gas, nv.Sender = a.tab[i].Gas, a.tab[i].Sender
 			}
